@@ -2586,6 +2586,20 @@ class KmipEngine(object):
                 encryption_key_uuid = key_info.unique_identifier
                 encryption_key_params = key_info.cryptographic_parameters
 
+                if encryption_key_params is None:
+                    raise exceptions.InvalidField(
+                        "The encryption key information of the key wrapping "
+                        "specification must include cryptographic parameters."
+                    )
+                if managed_object._object_type in [
+                    enums.ObjectType.CERTIFICATE,
+                    enums.ObjectType.OPAQUE_DATA
+                ]:
+                    raise exceptions.IllegalOperation(
+                        "Key wrapping is not supported for objects without "
+                        "a key block."
+                    )
+
                 try:
                     key = self._get_object_with_access_controls(
                         encryption_key_uuid,
